@@ -287,6 +287,10 @@ type CfgSpec struct {
 	// Replaced: the Config as it is after the caller "modified it after Parse": every menu
 	// function registered and replaced by one returning a marker, accessor mode set.
 	Replaced bool
+	// Script: this Config is one of a pair built as  A := <the functions above>; B := A (struct
+	// copy); B registers Extra in addition.  1: the call uses A, 2: the call uses B.
+	Script int
+	Extra  int
 }
 
 func replacedFilter(v interface{}) (interface{}, error) { return "REPLACED-AFTER-PARSE", nil }
@@ -325,10 +329,38 @@ func (c CfgSpec) String() string {
 	if c.Variant > 0 {
 		s += " variant" + string(rune('0'+c.Variant))
 	}
+	switch c.Script {
+	case 1:
+		s += " (original of a pair whose struct copy then registered " + funcNames[c.Extra] + ")"
+	case 2:
+		s += " (struct copy that registered " + funcNames[c.Extra] + " in addition)"
+	}
 	return s + "}"
 }
 
+// buildConfigPair builds A from the spec's functions, copies it (B := A) and lets the copy
+// register the Extra function.
+func buildConfigPair(c CfgSpec) (a, b jsonpath.Config) {
+	base := c
+	base.Script = 0
+	a = buildConfig(base)
+	b = a
+	if isAggregate(c.Extra) {
+		b.SetAggregateFunction(funcNames[c.Extra], mkAggregate(c.Extra, c.Variant))
+	} else {
+		b.SetFilterFunction(funcNames[c.Extra], mkFilter(c.Extra, c.Variant))
+	}
+	return a, b
+}
+
 func buildConfig(c CfgSpec) jsonpath.Config {
+	if c.Script != 0 {
+		a, b := buildConfigPair(c)
+		if c.Script == 1 {
+			return a
+		}
+		return b
+	}
 	cfg := jsonpath.Config{}
 	if c.Replaced {
 		modifyConfig(&cfg)
